@@ -827,6 +827,37 @@ def _overflow_strategy():
     return chain()
 
 
+def _large_strategy():
+    from hypothesis import strategies as st
+
+    @st.composite
+    def big(draw):
+        # more members than the waiting area of a view can hold (100), arriving parents first: nothing ever has to wait,
+        # so the tree is exact - and its public serialisation must reload to the same tree
+        n = draw(st.integers(101, 260))
+        kind = draw(st.sampled_from(["chain", "random", "bushy", "two_chains"]))
+        parents = []
+        for i in range(n):
+            if kind == "chain" or i == 0:
+                parents.append(i - 1)
+            elif kind == "two_chains":
+                parents.append(i - 2 if i >= 2 else GENESIS)
+            elif kind == "bushy":
+                parents.append(draw(st.integers(max(-1, i - 40), i - 1)))
+            else:
+                parents.append(draw(st.integers(-1, i - 1)))
+        tokens, events = expand(parents, list(range(n)), [])
+        return {"n": n, "curve": draw(st.sampled_from(CURVES)), "owner": draw(st.integers(0, 3)), "foreign": 5,
+                "tokens": tokens, "events": events, "tail": None, "large": kind}
+    return big()
+
+
+def _large_shard(ctx: Ctx, shard: int, nshards: int, examples: int) -> None:
+    def body(case):
+        execute(ctx, case, deep=True, sample_cap=6)
+    hyp_run(ctx, "large", _large_strategy(), body, examples, shrink_examples=20)
+
+
 def _overflow_shard(ctx: Ctx, shard: int, nshards: int, examples: int) -> None:
     def body(case):
         execute(ctx, case, deep=False)
@@ -839,10 +870,12 @@ def run(ctx: Ctx) -> None:
         shard_run(ctx, _exhaustive_shard, extra=(6, 1, 6, 20))
         shard_run(ctx, _random_shard, extra=(40,))
         shard_run(ctx, _overflow_shard, extra=(2,))
+        shard_run(ctx, _large_shard, extra=(2,))
     else:
         shard_run(ctx, _exhaustive_shard, extra=(6, 12, 7, 10))
         shard_run(ctx, _random_shard, extra=(1000,))
         shard_run(ctx, _overflow_shard, extra=(12,))
+        shard_run(ctx, _large_shard, extra=(25,))
     ctx.note("shapes_per_size", {str(n): len(shapes(n)) for n in range(1, (6 if ctx.quick else 7) + 1)})
     ctx.note("arrival_orders_enumerated", sum(len(shapes(n)) * _fact(n) for n in range(1, (6 if ctx.quick else 7) + 1)))
 
